@@ -2,6 +2,7 @@ pub mod c04;
 pub mod c05;
 pub mod c05d;
 pub mod c11;
+pub mod c12;
 pub mod c13;
 pub mod c14;
 pub mod c15;
@@ -25,6 +26,7 @@ pub const PROPS: &[PropDef] = &[
     PropDef { id: "C04", level: "exploration", run: c04::run, shards: 12, isolate: false },
     PropDef { id: "C05", level: "exploration", run: c05::run, shards: 12, isolate: true },
     PropDef { id: "C11", level: "exploration", run: c11::run, shards: 12, isolate: false },
+    PropDef { id: "C12", level: "exploration", run: c12::run, shards: 1, isolate: false },
     PropDef { id: "C13", level: "exploration", run: c13::run, shards: 12, isolate: true },
     PropDef { id: "C14", level: "exploration", run: c14::run, shards: 12, isolate: true },
     PropDef { id: "C15", level: "exploration", run: c15::run, shards: 12, isolate: true },
